@@ -750,7 +750,7 @@ pub fn gen_pl(rng: &mut Rng) -> String {
 /// redirection), long headers and parameter lists.
 pub fn gen_big_pl(rng: &mut Rng, kind: u64) -> (String, &'static str) {
     let mut out = String::new();
-    match kind % 10 {
+    match kind % 11 {
         0 => {
             // > 15 heights / depths, > 63 italics, up to 256 widths, wide value range
             let n = rng.range_usize(17, 256);
@@ -902,6 +902,27 @@ pub fn gen_big_pl(rng: &mut Rng, kind: u64) -> (String, &'static str) {
             }
             out.push_str(" (STOP))\n(CHARACTER C A (CHARWD R 1.0))\n");
             (out, "many-kerns")
+        }
+        9 => {
+            // every character labelled beyond position 255: up to 256 entry-point redirections
+            let lead = rng.range_usize(250, 300);
+            let nchars = *rng.pick(&[200usize, 254, 255, 256, 256]);
+            if rng.coin() {
+                out.push_str("(BOUNDARYCHAR C A)\n");
+            }
+            out.push_str("(LIGTABLE (LABEL BOUNDARYCHAR)\n");
+            for i in 0..lead {
+                out.push_str(&format!(" (KRN D {} R 0.{})\n", i % 256, i));
+            }
+            out.push_str(" (STOP)\n");
+            for c in 0..nchars {
+                out.push_str(&format!(" (LABEL D {}) (KRN D {} R 0.5) (STOP)\n", c, c));
+            }
+            out.push_str(")\n");
+            for c in 0..nchars {
+                out.push_str(&format!("(CHARACTER D {} (CHARWD R 0.5))\n", c));
+            }
+            (out, "all-labels-redirected")
         }
         _ => {
             // SEVENBITSAFEFLAG TRUE with 8-bit leaks through every channel
